@@ -475,7 +475,9 @@ class CallMixin:
         """FuncV for a Python function object defined in a sidecar (located by name in its AST)."""
         if isinstance(fn, FuncV):
             return fn
-        key = ("sidecar-fn", getattr(fn, "__module__", ""), getattr(fn, "__qualname__", repr(fn)))
+        code = getattr(fn, "__code__", None)
+        key = ("sidecar-fn", getattr(fn, "__module__", ""), getattr(fn, "__qualname__", repr(fn)),
+               code.co_firstlineno if code else 0, code.co_varnames[:code.co_argcount] if code else ())
         if key in self.global_cache:
             return self.global_cache[key]
         module_name = fn.__module__
@@ -540,10 +542,23 @@ class CallMixin:
         extra = dict(bound)
         extra["result"] = result
         extra["old"] = ObjV("_Old", dict(bound))
-        clauses = ensures.values() if isinstance(ensures, dict) else ([ensures] if ensures else [])
-        for fn in clauses:
+        clauses = ensures.items() if isinstance(ensures, dict) else ([("", ensures)] if ensures else [])
+        # what was proved of the callee excludes its open known-finding classes: assume no more
+        guards: dict[Any, list] = {}
+        for fid, entry in (con.__dict__.get("known") or {}).items():
+            if self.open_findings is None or fid in self.open_findings:
+                klass_fn, labels = entry if isinstance(entry, tuple) else (entry, None)
+                outside = self.not_(self.truth(self.eval_named(klass_fn, bound)))
+                outside = outside if not isinstance(outside, bool) else z3.BoolVal(outside)
+                for label in (labels if labels is not None else [None]):
+                    guards.setdefault(label, []).append(outside)
+        for label, fn in clauses:
             t = self.truth(self.eval_named(fn, extra))
-            ctx.assume(t if not isinstance(t, bool) else z3.BoolVal(t))
+            t = t if not isinstance(t, bool) else z3.BoolVal(t)
+            conds = guards.get(None, []) + guards.get(label, [])
+            if conds:
+                t = z3.Implies(z3.And(conds), t)
+            ctx.assume(t)
         return result
 
     def eval_named(self, fn: Any, values: dict[str, V]) -> V:
